@@ -214,7 +214,8 @@ def seeded_entries():
             m = json.load(f)
         out.append({'id': os.path.basename(os.path.dirname(meta)), 'props': m.get('expected_caught_by', [m['property']]),
                     'patch': os.path.join(os.path.dirname(meta), 'patch.diff'), 'note': m.get('needs', ''),
-                    'seeded': True, 'known_missed': m.get('known_missed', False)})
+                    'seeded': True, 'known_missed': m.get('known_missed', False),
+                    'neutralised_by': m.get('neutralised_by')})
     return out
 
 
@@ -268,6 +269,12 @@ def main(ns):
             shutil.rmtree(base, ignore_errors=True)
     killed = missed = stale = 0
     for ent in entries:
+        if ent.get('neutralised_by'):
+            # a later repair of /repo made the library robust against this change: it no longer breaks the
+            # property (its demonstration passes with the patch applied), so there is nothing to detect
+            print('NEUTRAL %-40s %s' % (ent['id'], ent['neutralised_by'][:100]))
+            results.append({'id': ent['id'], 'status': 'neutralised', 'why': ent['neutralised_by'], 'seeded': True})
+            continue
         base = make_scratch(repo)
         try:
             why = apply_entry(base, ent)
